@@ -208,7 +208,7 @@ def check_case(idx, sl, T, v, R):
                     from mc.model import emu
                     R.violation('reencode.bytes', rec, again[:60].hex(), data[:60].hex(), 'der.encoder',
                                 # the re-encoded object has no schema: OPTIONAL/DEFAULT-related findings cannot apply
-                                feats | emu.classify(T, v, 'der', again, ALL=('K1', 'K3', 'K4')), idx)
+                                feats | emu.classify(T, v, 'der', again, ALL=('K1', 'K4')), idx)
                     continue
             for f in feats:
                 R.features[f] += 1
